@@ -1052,7 +1052,11 @@ class Node(object):
         node.ownerDocument = self.ownerDocument
         if deep:
             if node.attributes is not None and self.attributes is not None:
-                node.attributes.update(self.attributes)
+                for key, value in list(self.attributes.items()):
+                    if isinstance(value, Node):
+                        value = value.cloneNode(deep)
+                        value.parentNode = node
+                    node.attributes[key] = value
             if self.hasChildNodes():
                 for x in self.childNodes:
                     node.append(x.cloneNode(deep))
